@@ -725,7 +725,15 @@ func attFullRead(c *core.Collector) {
 				continue
 			}
 			want := len(b.expect) - 1 // every reply but the sentinel's
-			before, tot, delay, to := att.RunPipeStaged(consts.ActiveSafetyJS, b.stream[:cut], b.stream[cut:], want, 1500*time.Millisecond)
+			var before, tot int
+			var delay time.Duration
+			var to bool
+			for attempt := 0; attempt < 3; attempt++ { // only a pattern that repeats three times in a row is a verdict (loaded machines)
+				before, tot, delay, to = att.RunPipeStaged(consts.ActiveSafetyJS, b.stream[:cut], b.stream[cut:], want, 1500*time.Millisecond)
+				if to || before >= want || !(tot >= want+1 && delay < 150*time.Millisecond) {
+					break
+				}
+			}
 			c.Eval()
 			switch {
 			case to:
